@@ -94,8 +94,54 @@ def c02(tier):
     return c02_depth1() + c02_depth2(tier, rng) + c02_random(tier, rng)
 
 
+def wf_subs():
+    """Test sub-routines for the well-formedness checks: C08's set + bodies that mention hi / pkt / bundle in every combination."""
+    subs = dict(c08_subs())
+    subs.update({
+        "vf_setd": dict(return_type="void", params=["HexInsnPktBundle *bundle", "const HexOp *RdV", "int32_t v"], code="{ RdV = v; }"),
+        "vf_getx": dict(return_type="int32_t", params=["HexInsnPktBundle *bundle", "const HexOp *RxV"], code="{ return RxV + 1; }"),
+        "vf_fadd": dict(return_type="uint32_t", params=["uint32_t a", "uint32_t b"],
+                        code="{ return fUNFLOAT(FLOAT(RZ_FLOAT_IEEE754_BIN_32, a) + FLOAT(RZ_FLOAT_IEEE754_BIN_32, b)); }"),
+        "vf_usr": dict(return_type="uint32_t", params=["HexInsnPktBundle *bundle"], code="{ return HEX_REG_ALIAS_USR + 1; }"),
+        "vf_expl": dict(return_type="void", params=["HexInsnPktBundle *bundle", "int32_t v"], code="{ R1 = v; }"),
+        "vf_pure": dict(return_type="uint16_t", params=["uint16_t a"], code="{ return a * a + a; }"),
+        "vf_npc": dict(return_type="uint32_t", params=["HexInsnPktBundle *bundle"], code="{ return get_npc(pkt) & 0xfffffffe; }"),
+        "vf_cancel": dict(return_type="void", params=["HexInsnPktBundle *bundle", "int32_t c"],
+                          code="{ if (c) { STORE_SLOT_CANCELLED(pkt, slot); } }"),
+    })
+    return subs
+
+
 def wf_family(prop, tier):
-    return []
+    """Programs for C10/C11/C12: the constructs of the other families that stress sorts, declarations and ownership."""
+    rng = random.Random(seed() * 7919 + 10)
+    out = []
+    out += c05_assign() + c05_assign_narrow()
+    out += c06(tier)
+    out += [p for p in c09(tier) if "?" in p or "sizeof" in p][:400]
+    d1 = c02_depth1()
+    out += d1 if tier == "thorough" else d1[::4]
+    out += c05_struct()
+    # metadata / plugin-variable usage: explicit registers only, slot cancel, aliases, immediates only, nothing at all
+    out += ["{ R0 = R1; }", "{ if (P0 & 1) { R0 = R1; } else { STORE_SLOT_CANCELLED(pkt, slot); } }", "{ STORE_SLOT_CANCELLED(pkt, slot); }",
+            "{ HEX_REG_ALIAS_LR = HEX_REG_ALIAS_SP; }", "{ R0 = get_npc(pkt); }", "{ R0 = 1; }", "{ R0 = siV; }", "{ P0 = P1; }",
+            "{ R1:0 = R3:2; }", "{ R0 = HEX_REG_ALIAS_PC; }", "{ R0 = NsN; }", "{ ; }", "{ }", "{ cancel_slot; }", "{ R0 = clz32(R1); }",
+            "{ R0 = fUNFLOAT(FLOAT(RZ_FLOAT_IEEE754_BIN_32, R1) + FLOAT(RZ_FLOAT_IEEE754_BIN_32, R2)); }",
+            "{ set_usr_field(bundle, HEX_REG_FIELD_USR_OVF, 1); }", "{ R0 = get_usr_field(bundle, HEX_REG_FIELD_USR_OVF); }",
+            "{ vf_setd(bundle, RdV, 3); }", "{ RxV = vf_getx(bundle, RxV); }", "{ R0 = vf_fadd(R1, R2); }", "{ R0 = vf_usr(bundle); }",
+            "{ vf_expl(bundle, R2); }", "{ R0 = vf_pure(R1); }", "{ R0 = vf_npc(bundle); }", "{ vf_cancel(bundle, R1); }",
+            "{ int32_t hi_x = RsV; RdV = hi_x; }", "{ int32_t pktx = RsV; RdV = pktx; }", "{ int32_t this_hi = R1; R0 = this_hi; }"]
+    # heavy operand re-use
+    for n in (2, 3, 5, 9):
+        out.append("{ RdV = " + " + ".join(["RsV"] * n) + "; }")
+        out.append("{ RdV = " + " ^ ".join(["siV"] * n) + "; }")
+        out.append("{ int32_t v = RsV; RdV = " + " * ".join(["v"] * n) + "; }")
+        out.append("{ RxV = " + " + ".join(["RxV"] * n) + "; }")
+        out.append("{ RdV = " + " + ".join(["clz32(RsV)"] * min(n, 4)) + "; }")
+        out.append("{ EA = RsV; RdV = " + " + ".join(["(int32_t)mem_load_u8(EA)"] * min(n, 4)) + "; }")
+        out.append("{ RdV = " + " | ".join(["P0"] * n) + "; }")
+        out.append("{ RdV = " + " + ".join(["HEX_REG_ALIAS_SP"] * n) + "; }")
+    return list(dict.fromkeys(out))
 
 
 def layout_family(tier):
